@@ -191,5 +191,10 @@ func TrustedResourceURLAppend(t TrustedResourceURL, s string) (TrustedResourceUR
 	if !safehtmlutil.IsSafeTrustedResourceURLPrefix(t.str) {
 		return TrustedResourceURL{}, fmt.Errorf("cannot append to TrustedResourceURL %q because it has an unsafe prefix", t)
 	}
+	if safehtmlutil.URLContainsDoubleDotSegment(s) {
+		// Reject values containing the ".." dot-segment to prevent the final TrustedResourceURL from referencing
+		// a resource higher up in the path name hierarchy than the path of the TrustedResourceURL appended to.
+		return TrustedResourceURL{}, fmt.Errorf(`cannot append %q to TrustedResourceURL %q: the appended string must not contain ".."`, s, t)
+	}
 	return TrustedResourceURL{t.str + safehtmlutil.QueryEscapeURL(s)}, nil
 }
